@@ -41,8 +41,11 @@ CHECKS = {
              design_ref="DESIGN.md §7 C25",
              level_text="Snapshots before the block, after BeginBlock, after every challenge burn and after commit: stake removed == supply burned == pool decrease per slashing phase, "
                         "never more than the stake, only offenders slashed; below minimum => jailed and queued; jailed => outside the reported consensus set and every dispatched session; "
-                        "unjail <=> authorized signer, stake >= minimum, block time >= JailedUntil (block times in 2001 and 2101; shifted replay must give the same transcript). "
-                        "Exploration: bounded histories.",
+                        "unjail <=> authorized signer, stake >= minimum, block time >= end of the jail period (block times in 2001 and 2101; shifted replay must give the same transcript). "
+                        "The end of a jail period is the monitor's own memory (block time of the jailing block + DowntimeJailDuration, checked against the stored JailedUntil when the node is jailed "
+                        "and kept until the node is seen unjailed), so an unjail is judged against it whatever the signing info says by then (edit-stake while jailed, signing-window rollover at "
+                        "height %% 10 == 0: jailing in the last two blocks of a window / first block of the next, and unjail attempts in the last block before / first block at the deadline, are generated classes). "
+                        "Exploration: bounded histories (16-36 blocks).",
              level_note=_NOTE + " Expected slash AMOUNTS are not predicted (that would re-implement the weight formula); 'must be accepted' is only demanded for an unjail that is the single "
                         "message about that node in its block."),
 }
